@@ -24,7 +24,11 @@ fn fit(v: &[f32], dim: usize) -> Vec<f32> {
 }
 
 fn ref_dist(a: &[f32], b: &[f32]) -> f64 {
-    a.iter().zip(b.iter()).map(|(x, y)| { let d = *x as f64 - *y as f64; d * d }).sum::<f64>().sqrt()
+    let r = a.iter().zip(b.iter()).map(|(x, y)| { let d = *x as f64 - *y as f64; d * d }).sum::<f64>().sqrt();
+    // beyond ~1.8e19 the squared distance does not fit an f32: the documented f32 arithmetic
+    // reports +inf there, and every such frame is equally "infinitely far" (extreme values are
+    // generated as 0 / +-1e30 / +-3e38 only, so no distance falls near the threshold)
+    if r > 1.0e19 { f64::INFINITY } else { r }
 }
 
 fn tol(d: f64) -> f64 {
@@ -53,7 +57,7 @@ fn run_queries(mem: &mut Memvid, c: &Case, dim: usize, active: &[(u64, Vec<f32>)
             };
             let r = ref_dist(&q, emb);
             ensure!(
-                ((h.distance as f64) - r).abs() <= tol(r),
+                if r.is_infinite() { h.distance.is_infinite() && h.distance > 0.0 } else { ((h.distance as f64) - r).abs() <= tol(r) },
                 "C13:distance-value",
                 "{}: frame {} reported at distance {} but the L2 distance is {}", label, h.frame_id, h.distance, r
             );
@@ -64,7 +68,7 @@ fn run_queries(mem: &mut Memvid, c: &Case, dim: usize, active: &[(u64, Vec<f32>)
                 if !returned.contains(id) {
                     let r = ref_dist(&q, emb);
                     ensure!(
-                        r >= last_ref - tol(last_ref),
+                        r >= last_ref - if last_ref.is_finite() { tol(last_ref) } else { 0.0 },
                         "C13:closer-frame-omitted",
                         "{}: k={}: frame {} at distance {} is omitted although the last hit (frame {}) is at {}", label, k, id, r, last.frame_id, last_ref
                     );
@@ -175,8 +179,22 @@ fn value() -> impl Strategy<Value = f32> {
     ]
 }
 
+/// a vector with one or two coordinates of extreme magnitude (finite, but the f32 squared
+/// distance to ordinary vectors overflows)
+fn extreme_vector(dim: usize) -> impl Strategy<Value = Vec<f32>> {
+    (prop::collection::vec(value(), dim), prop::collection::vec((any::<u16>(), prop::sample::select(vec![1e30f32, -1e30, 3.0e38, -3.0e38])), 1..3)).prop_map(move |(mut v, xs)| {
+        for (i, x) in xs {
+            let k = crate::util::pick_index(i, dim.max(1));
+            if k < v.len() {
+                v[k] = x;
+            }
+        }
+        v
+    })
+}
+
 fn vector(dim: usize) -> impl Strategy<Value = Vec<f32>> {
-    prop::collection::vec(value(), dim)
+    prop_oneof![12 => prop::collection::vec(value(), dim), 1 => extreme_vector(dim)]
 }
 
 fn case(max_vectors: usize) -> impl Strategy<Value = Case> {
@@ -204,8 +222,8 @@ fn case(max_vectors: usize) -> impl Strategy<Value = Case> {
 }
 
 pub fn build(ctx: &Ctx) -> Vec<Box<dyn Arm>> {
-    ctx.rule("embedding sets of 1..60 (thorough 1..400) vectors, dimension 1..64, values from small integers (many ties), uniform reals, signed zeros, 1e-45..1e15, with injected duplicate vectors, optional deletes and intermediate commits; 3..6 queries each with k in 0..m+5; oracle: len == min(k, m), distances non-decreasing, each reported distance within 1e-4*max(1,d) of the f64 L2 distance, no omitted active frame closer than the last hit by more than that tolerance, no duplicates, wrong-dimension queries rejected with VecDimensionMismatch, results (ids and distance bits) identical after close and reopen; non-trivial = m >= 10, some 0 < k < m, at least two distinct distances");
-    ctx.assume("values are NaN/inf-free with finite squares; float tolerance 1e-4 relative (absolute below 1)");
+    ctx.rule("embedding sets of 1..60 (thorough 1..400) vectors, dimension 1..64, values from small integers (many ties), uniform reals, signed zeros, 1e-45..1e15, a few vectors / queries with coordinates of +-1e30 / +-3e38 (finite, but the f32 squared distance overflows to +inf, which is then the expected reported distance), with injected duplicate vectors, optional deletes and intermediate commits; 3..6 queries each with k in 0..m+5; oracle: len == min(k, m), distances non-decreasing, each reported distance within 1e-4*max(1,d) of the f64 L2 distance, no omitted active frame closer than the last hit by more than that tolerance, no duplicates, wrong-dimension queries rejected with VecDimensionMismatch, results (ids and distance bits) identical after close and reopen; non-trivial = m >= 10, some 0 < k < m, at least two distinct distances");
+    ctx.assume("values are NaN/inf-free; a reference distance above 1e19 is treated as +inf (f32 overflow of the squared sum), extreme coordinates come from a fixed set so no distance is near that threshold; float tolerance 1e-4 relative (absolute below 1)");
     let t = ctx.tier;
     vec![arm_with("vectors", t.pick(200, 4000), 8, t.pick(60, 200), move || case(t.pick(60, 400)), check)]
 }
